@@ -42,7 +42,14 @@ void *xvu_memcpy_val(void *dst, const void *src, size_t n);
 #define memcpy(d, s, n) xvu_memcpy_val((d), (s), (n))
 #define ut_malloc(n) xvu_sess_malloc(n)
 #define ut_free(p) xvu_sess_free(p)
+/* xcmc.c compares  send(...) != sizeof(req)  and  recv(...) != sizeof(res) : the ssize_t result -1 is converted to size_t, which C
+ * defines (modulo 2^64) and the code relies on; CBMC's --conversion-check reports every signed-to-unsigned conversion of a negative
+ * value.  That check is switched off for the text of xcmc.c (only); its one narrowing conversion, `return attr->value_len` (size_t to
+ * int), is covered by the postcondition xcmc_attr_get.value_len_not_trusted (the value returned is at most 512). */
+#pragma CPROVER check push
+#pragma CPROVER check disable "conversion"
 #include "xcmc.c"
+#pragma CPROVER check pop
 #undef ut_malloc
 #undef ut_free
 #undef memcpy
